@@ -262,6 +262,24 @@ def run_case(ck, desc):
     zs = {}
     for pr in desc["pr"]:
         zs[pr] = float(z_factor_DAK(T, pr * ppc, Tpc, ppc))
+    # (d0) every isotherm dips below Z = 1 and climbs back: at ONE finite pressure the root is exactly the ideal-gas
+    #      value (the density equals any "ideal-gas starting guess"). That pressure is solved for here, with the
+    #      library's own Z, and asked together with its neighbours a few ulp .. 1e-4 psi away
+    try:
+        from scipy.optimize import brentq as _brentq
+
+        gz = lambda x: float(z_factor_DAK(T, x, Tpc, ppc)) - 1.0  # noqa: E731
+        grid_ = np.linspace(1.5, 29.5, 57) * ppc
+        vals_ = [gz(x) for x in grid_]
+        k_ = next((i for i in range(len(grid_) - 1) if vals_[i] < 0 <= vals_[i + 1]), None)
+        if k_ is not None:
+            p1 = float(_brentq(gz, grid_[k_], grid_[k_ + 1], xtol=1e-12, rtol=1e-15))
+            for x in (p1, np.nextafter(p1, 0), np.nextafter(p1, np.inf), p1 - 1e-9, p1 + 1e-9, p1 - 1e-6, p1 + 1e-5, p1 + 1e-4, round(p1, 3), round(p1, 1)):
+                z1 = float(z_factor_DAK(T, float(x), Tpc, ppc))
+                zs[float(x) / ppc] = z1
+            ck.count("isotherms_asked_where_Z_returns_to_one")
+    except Exception as e:  # noqa: BLE001
+        ck.violation("every-pressure-in-range-has-a-Z", {"where": "at / next to the pressure at which Z returns to 1", "Tr": Tr, "raised": repr(e)[:200]}, desc)
     # (d) ideal-gas limit
     for pr in (1e-2, 1e-3, 1e-4):
         z = float(z_factor_DAK(T, pr * ppc, Tpc, ppc))
